@@ -226,9 +226,84 @@ def check_parental_swap(tier, seed):
     return {"bound": "pedigrees with parental pairs x %d random states x every pair of allele copies" % n_states, "evaluations": ev, "distinct_nontrivial": nontriv, "failures": fails, "samples": samples, "exhaustive": False}
 
 
-CHECKS = [check_gibbs_and_mh, check_parental_swap]
+def check_unknown_parent_row_ignored(tier, seed):
+    """Hypothesis IGNP of contracts/pedigree_joint.py: for an unknown parent the samplers pass the wrapped-around row
+    sample_genotypes[-1] with ploidy 0 and error 1 -- trio_log_pmf / trio_allele_log_pmf must not depend on that row.
+    Also: sample_children_matrix == brute-force children lists (run-time twin of its U contract)."""
+    from mchap.pedigree import prior as PP
+    from mchap.pedigree.mcmc import sample_children_matrix
+
+    rng = np.random.default_rng(seed + 181)
+    ev = nontriv = 0
+    fails = []
+    n = 150 if tier == "quick" else 1500
+    width = 4
+    for _ in range(n):
+        ploidy = int(rng.choice([2, 4]))
+        prog = np.full(width, -1, dtype=np.int64)
+        prog[:ploidy] = np.sort(rng.integers(0, 3, size=ploidy))
+        known = np.full(width, -1, dtype=np.int64)
+        kp = int(rng.choice([2, 4]))
+        known[:kp] = np.sort(rng.integers(0, 3, size=kp))
+        unknown_first = bool(rng.integers(0, 2))
+        both_unknown = rng.random() < 0.25
+        logf = np.log(np.array([0.5, 0.3, 0.2]))
+        tau_k = int(rng.integers(0, ploidy + 1)) if not both_unknown else ploidy // 2
+        tau_u = ploidy - tau_k
+        err_k = float(rng.choice([0.0, 0.1, 1.0]))
+        outs = []
+        outs_a = []
+        for rep in range(3):
+            junk = rng.integers(-1, 3, size=width).astype(np.int64)
+            junk2 = rng.integers(-1, 3, size=width).astype(np.int64)
+            sc = [np.zeros(width, dtype=np.int64) for _ in range(7)]
+            dlf = np.zeros(width)
+            if both_unknown:
+                args = (prog, junk, junk2, 0, 0, tau_k, tau_u, 0.0, 0.0, 1.0, 1.0)
+            elif unknown_first:
+                args = (prog, junk, known, 0, kp, tau_u, tau_k, 0.0, 0.0, 1.0, err_k)
+            else:
+                args = (prog, known, junk, kp, 0, tau_k, tau_u, 0.0, 0.0, err_k, 1.0)
+            outs.append(float(PP.trio_log_pmf(*args, logf, *sc, dlf)))
+            k = int(rng.integers(0, ploidy)) if rep == 0 else k
+            outs_a.append(float(PP.trio_allele_log_pmf(k, *args, logf, *sc, dlf)))
+        ev += 1
+        nontriv += outs[0] > -np.inf
+        if not (outs[0] == outs[1] == outs[2]) or not (outs_a[0] == outs_a[1] == outs_a[2]):
+            if len(fails) < 3:
+                fails.append({"key": "rt/unknown_parent_row_ignored", "check": "mchap.pedigree.prior.trio_log_pmf", "input": {"progeny": prog.tolist(), "known_parent": known.tolist(), "unknown_first": unknown_first, "both_unknown": bool(both_unknown), "tau": [tau_k, tau_u], "error_known": err_k}, "observed": [outs, outs_a], "expected": "identical for every content of the unknown parent's row"})
+    # children matrix
+    for _ in range(n // 3):
+        ns = int(rng.integers(1, 9))
+        parents = np.full((ns, 2), -1, dtype=np.int64)
+        for i in range(1, ns):
+            for j in range(2):
+                if rng.random() < 0.6:
+                    parents[i, j] = int(rng.integers(0, i))
+        perm = rng.permutation(ns)  # parents need not precede their children
+        inv = np.argsort(perm)
+        par2 = np.full((ns, 2), -1, dtype=np.int64)
+        for i in range(ns):
+            for j in range(2):
+                par2[perm[i], j] = -1 if parents[i, j] < 0 else perm[parents[i, j]]
+        ch = sample_children_matrix(par2)
+        ev += 1
+        nontriv += ch.shape[1] > 0
+        for p_ in range(ns):
+            exp = [i for i in range(ns) if par2[i, 0] == p_ or par2[i, 1] == p_]
+            got = [int(x) for x in ch[p_] if x >= 0]
+            pad_ok = all(int(x) == -1 for x in ch[p_, len(got):])
+            if got != exp or not pad_ok:
+                if len(fails) < 3:
+                    fails.append({"key": "rt/children_matrix", "check": "mchap.pedigree.mcmc.sample_children_matrix", "input": {"sample_parents": par2.tolist()}, "observed": ch.tolist(), "expected": {"row": p_, "children": exp}})
+    return {"bound": "%d random (progeny, known parent, unknown parent row) triples x 3 junk rows; %d random pedigrees of <= 8 individuals" % (n, n // 3), "evaluations": ev, "distinct_nontrivial": int(nontriv), "failures": fails, "samples": [], "exhaustive": False}
+
+
+CHECKS = [check_gibbs_and_mh, check_parental_swap, check_unknown_parent_row_ignored]
 REPLAY = {
     "mchap.pedigree.mcmc.gibbs_probabilities": first_failure(check_gibbs_and_mh),
     "mchap.pedigree.mcmc.metropolis_hastings_probabilities": first_failure(check_gibbs_and_mh),
     "mchap.pedigree.mcmc.pair_allele_swap_step": first_failure(check_parental_swap),
+    "mchap.pedigree.prior.trio_log_pmf": first_failure(check_unknown_parent_row_ignored),
+    "mchap.pedigree.mcmc.sample_children_matrix": first_failure(check_unknown_parent_row_ignored),
 }
